@@ -116,11 +116,10 @@ def ctxUses : List (String × String × Nat) := [
   -- places that call (*os.File).Fd on, or hand to os/exec, a file that may be the runner's stdin:
   -- Fd() switches the file to blocking mode, after which SetReadDeadline no longer interrupts a
   -- read — the `deadline` class of readLine/mapfile holds only while none of these has touched the
-  -- same file (open known finding C31-read-after-fd)
+  -- same file (open known findings C31-read-after-fd-exec/-mapfile: the exec path)
   ("DefaultExecHandler+closure", "exec-stdin", 1),
-  ("stdinTerminal", "Fd-call", 1),                  -- only reached for character devices
-  ("Runner.unTest", "Fd-call", 1),                  -- `test -t N`: any file, pipes included
-  ("DefaultExecHandler+closure", "ctx.Err", 2)
+  ("stdinTerminal", "Fd-call:chardev-only", 1),     -- only reached for character devices
+  ("Runner.unTest", "Fd-call:chardev-only", 1)      -- `test -t N`: since d41cde1 only for character devices
 ]
 
 end ShVerif.Expect.C31
